@@ -47,19 +47,24 @@ Proof.
 Qed.
 
 (* ------------------------------------------------------------------ ev_ok, clause by clause *)
-Lemma ev_ok_emit : forall nt e p, src_running p = true -> ev_ok nt (TEmit e) p = [].
-Proof. intros. unfold ev_ok. rewrite H. reflexivity. Qed.
-
-Lemma ev_ok_end : forall nt k b p, started k p = true -> ended k p = false -> ev_ok nt (TEnd k b) p = [].
+Lemma ev_ok_emit : forall nt e p, src_running p = true -> any_prepfail p = false -> ev_ok nt (TEmit e) p = [].
 Proof. intros. unfold ev_ok. rewrite H, H0. reflexivity. Qed.
+
+Lemma ev_ok_end : forall nt k b p, started k p = true -> ended k p = false -> any_prepfail p = false ->
+  ev_ok nt (TEnd k b) p = [].
+Proof. intros. unfold ev_ok. rewrite H, H0, H1. reflexivity. Qed.
 
 Lemma ev_ok_prep_succ : forall nt k p, prepped (S k) p = false -> ended_with k false p = true ->
-  ev_ok nt (TPrep (S k)) p = [].
-Proof. intros. unfold ev_ok. rewrite H, H0. reflexivity. Qed.
+  any_prepfail p = false -> ev_ok nt (TPrep (S k)) p = [].
+Proof. intros. unfold ev_ok. rewrite H, H0, H1. reflexivity. Qed.
+
+Lemma ev_ok_prepfail_succ : forall nt k p, prepped (S k) p = false -> ended_with k false p = true ->
+  any_prepfail p = false -> ev_ok nt (TPrepFail (S k)) p = [].
+Proof. intros. unfold ev_ok. rewrite H, H0, H1. reflexivity. Qed.
 
 Lemma ev_ok_start_succ : forall nt k p, prepped (S k) p = true -> started (S k) p = false ->
-  ended_with k false p = true -> any_nil_end p = false -> ev_ok nt (TStart (S k)) p = [].
-Proof. intros. unfold ev_ok. rewrite H, H0, H1, H2. reflexivity. Qed.
+  ended_with k false p = true -> any_nil_end p = false -> any_prepfail p = false -> ev_ok nt (TStart (S k)) p = [].
+Proof. intros. unfold ev_ok. rewrite H, H0, H1, H2, H3. reflexivity. Qed.
 
 Lemma ev_ok_done : forall nt clean p, is_done p = false ->
   (clean = true -> forallb (fun n => shute n p) (seq 0 (length nt)) = true) -> ev_ok nt (TDone clean) p = [].
@@ -208,7 +213,9 @@ Proof.
   { unfold started. rewrite has_app. cbn. rewrite orb_false_r. apply has_rev_setups. reflexivity. }
   assert (C : any_nil_end (rev (map TSetup (seq 0 (length nt))) ++ [TPrep 0]) = false).
   { unfold any_nil_end. rewrite has_app. cbn. rewrite orb_false_r. apply has_rev_setups. reflexivity. }
-  rewrite A, B, C. reflexivity.
+  assert (D : any_prepfail (rev (map TSetup (seq 0 (length nt))) ++ [TPrep 0]) = false).
+  { unfold any_prepfail. rewrite has_app. cbn. rewrite orb_false_r. apply has_rev_setups. reflexivity. }
+  rewrite A, B, C, D. reflexivity.
 Qed.
 
 (* ------------------------------------------------------------------ what the trace entitles a node to *)
@@ -446,21 +453,25 @@ Proof.
   pose proof (ExecCount.count_inv_reachable nt T s HR) as C.
   destruct C as (Ccons & Cchan & _ & _ & _ & Ccalls & Cflight & _).
   pose proof (ExecMain.source_history_reachable nt T s HR) as Hh. unfold ExecMain.src_history in Hh.
+  pose proof (k_dead _ _ K) as Kdead.
   rewrite Ftr. clear Ftr H.
   destruct a; cbn [guard] in G; cbn [evs]; try exact Hok.
   - (* SrcEmit *)
-    cbn [app trace_ok]. rewrite Hok, app_nil_r. apply ev_ok_emit.
-    rewrite (k_run _ _ K). destruct G as [[k ->] _]. reflexivity.
+    cbn [app trace_ok]. rewrite Hok, app_nil_r. destruct G as [[k Hk] _]. apply ev_ok_emit.
+    + rewrite (k_run _ _ K), Hk. reflexivity.
+    + rewrite Kdead, Hk. reflexivity.
   - (* SrcReturnNil *)
     destruct G as [k Hk]. rewrite Hk in *. cbn [app trace_ok]. rewrite Hok, app_nil_r. apply ev_ok_end.
     + rewrite <- started_src, Hh. unfold started, has. cbn [existsb]. rewrite Nat.eqb_refl. reflexivity.
     + rewrite <- ended_src, Hh. destruct (failed_fresh k k (le_n _)) as (_ & B & _).
       unfold ended, has in *. cbn [existsb]. rewrite B. reflexivity.
+    + exact Kdead.
   - (* SrcReturnErr *)
     destruct G as [k Hk]. rewrite Hk in *. cbn [app trace_ok]. rewrite Hok, app_nil_r. apply ev_ok_end.
     + rewrite <- started_src, Hh. unfold started, has. cbn [existsb]. rewrite Nat.eqb_refl. reflexivity.
     + rewrite <- ended_src, Hh. destruct (failed_fresh k k (le_n _)) as (_ & B & _).
       unfold ended, has in *. cbn [existsb]. rewrite B. reflexivity.
+    + exact Kdead.
   - (* SrcRestart *)
     destruct G as [k Hk]. pose proof (k_nil _ _ K) as Knil. rewrite Hk in *.
     cbn [app trace_ok]. rewrite Hok, app_nil_r.
@@ -469,12 +480,13 @@ Proof.
     assert (P2 : started (S k) (tr s) = false) by (rewrite <- started_src, Hh; exact A).
     assert (P3 : ended_with k false (tr s) = true).
     { rewrite <- ended_with_src, Hh. unfold ended_with, has. cbn [ExecMain.failed existsb]. rewrite Nat.eqb_refl. reflexivity. }
-    rewrite (ev_ok_prep_succ nt k (tr s) P1 P3), app_nil_r.
+    rewrite (ev_ok_prep_succ nt k (tr s) P1 P3 Kdead), app_nil_r.
     apply ev_ok_start_succ.
     + unfold prepped, has. cbn [existsb]. rewrite Nat.eqb_refl. reflexivity.
     + exact P2.
     + exact P3.
     + exact Knil.
+    + exact Kdead.
   - (* MainWgDone *)
     destruct G as [Hm Hall]. cbn [app trace_ok]. rewrite Hok, app_nil_r. apply ev_ok_done.
     + rewrite (k_done _ _ K), Hm. reflexivity.
@@ -544,6 +556,14 @@ Proof.
     destruct G as [rest Hr]. cbn [app trace_ok]. rewrite Hok, app_nil_r. apply ev_ok_cb.
     apply Nat.ltb_lt. specialize (Cflight n it).
     pose proof (ExecBase.count_item_remove_one _ _ _ Hr it) as Hc. rewrite ExecBase.item_eqb_refl in Hc. lia.
+  - (* SrcSetupFail *)
+    destruct G as [k Hk]. rewrite Hk in *.
+    cbn [app trace_ok]. rewrite Hok, app_nil_r.
+    destruct (failed_fresh (S k) (S k) (le_n _)) as (A & _ & B).
+    apply ev_ok_prepfail_succ.
+    + rewrite <- prepped_src, Hh; exact B.
+    + rewrite <- ended_with_src, Hh. unfold ended_with, has. cbn [ExecMain.failed existsb]. rewrite Nat.eqb_refl. reflexivity.
+    + exact Kdead.
 Qed.
 
 (* C01..C05, C18 on the observable trace: every run of the model satisfies the trace specification *)
